@@ -1,5 +1,6 @@
 import IdspModel.Lemmas.LockinRecAsm
 import IdspModel.Lemmas.LockinRecPolar
+import IdspModel.Lemmas.LockinRecWit
 import Mathlib.Algebra.Order.Floor.Ring
 /-!
 # C11, recovery clause — the lock-in recovers amplitude and phase of a tone at the reference frequency
@@ -28,12 +29,22 @@ What is proved (all for BOTH build profiles):
   (all `A ≥ 2^25`; all amplitudes of the clause when `k ≥ 2^22`);
 * `lockin_recovery_angle_partial` — angle error `≤ 2e-4` rad whenever `k·A ≥ 3·2^46`
   (all `A ≥ 3·2^26`; all amplitudes of the clause when `k ≥ 3·2^23`).
-NOT proved: `lockin_recovery_full` (the clause for all `A ≥ 2^23` and all `k ≥ 2^20`).  Its angle part is known from
-native exploration to FAIL for small amplitude (`A = 2^23`, `k = 2^20`: `9.7e-4` rad; the static truncation offset of
-`Lowpass<2>`, up to `√2·2^32/k` LSB, against `A/2`), which is exactly the `2^32/(k·A)` term carried by the `_general`
-theorems; no Lean witness is given (a run of `1.6e5` updates is out of reach of `decide`).  The constants in front of
-`2^32/(k·A)` are about `3×` the observed worst case (the quadratic-Lyapunov gain bound `2` instead of the true `ℓ¹` gain
-`≈ 1.09`, and componentwise → Euclidean `√2`).
+FALSE for the code: `lockin_recovery_full` (the clause for all `A ≥ 2^23` and all `k ≥ 2^20`) —
+`lockin_recovery_full_false`, by the concrete run `lockin_recovery_angle_witness` (`A = 2^23`, `k = 2^20`, `θ = π/4`,
+quarter-rate reference: the angle of the mean output is off by more than `9.7e-4` rad).  Cause: the static truncation
+offset of `Lowpass<2>` (about `2^32/(√2·k)` LSB in each channel) against `A/2`, which is exactly the `2^32/(k·A)` term
+carried by the `_general` theorems.
+NOT proved: the clause between the certified thresholds and the true ones (natively the angle part holds from about
+`k·A ≥ 2^45.3`, the magnitude part everywhere).  The constants in front of `2^32/(k·A)` are about `3×` the observed
+worst case (the quadratic-Lyapunov gain bound `2` instead of the true `ℓ¹` gain `≈ 1.09`, and a worst-case treatment
+of the fluctuating part of the truncation disturbance).
+
+Helper results of independent interest (`Lemmas/LockinRec*.lean`): `lkQ_seq` / `LkGain.seq_bound` (input-to-state bound
+of the lowpass over `ℝ` for ARBITRARY bounded disturbance sequences), `lkSeq_run` (the integer run IS such a real run,
+the two floors being a disturbance in `[0, α+β)`), `lkV0_norm_le` (steady-state gain at twice the reference frequency
+`≤ 12·a/2^32`), `lkTS_sum_le` (window SUM of the tone response `≤ 40·a/2^32` × amplitude, any window),
+`LkGain.lam_pow_le` (start-up transient: factor `≤ 2^-78` on the quadratic form after `40·2^32/k` samples),
+`lk_butter_gain` (every documented pair with `2^20 ≤ k ≤ 2^25` qualifies), `lk_magnitude`, `lk_angle` (geometry).
 -/
 namespace Idsp
 open Real
@@ -253,8 +264,8 @@ theorem lockin_recovery_angle_partial (m : Mode) {k a b : Int} (hB : Lp2Butter k
   have hc' := not_le.mp hc
   nlinarith
 
-/-- the recovery clause as asked (NOT proved; its angle part is known from native exploration to fail for
-    `A < 2^25`, e.g. `A = 2^23`, `k = 2^20`): every amplitude `A ∈ [2^23, 2^30]`, every documented `2^20 ≤ k ≤ 2^25` -/
+/-- the recovery clause as asked: every amplitude `A ∈ [2^23, 2^30]`, every documented `2^20 ≤ k ≤ 2^25`.
+    It is FALSE for the code (`lockin_recovery_full_false` below: the angle part fails at `A = 2^23`, `k = 2^20`). -/
 def lockin_recovery_full : Prop :=
   ∀ (m : Mode) (k a b : Int) (A θ : ℝ) (p0 F : Int) (x p : ℕ → Int),
     Lp2Butter k a b → 2 ^ 20 ≤ k → k ≤ 2 ^ 25 → 2 ^ 23 ≤ A → A ≤ 2 ^ 30 → LkSetup A θ p0 F x p →
@@ -287,5 +298,56 @@ example : ∃ x p : ℕ → Int, Lp2Butter 16777216 65536 23726566 ∧ LkSetup (
   have h1 := Int.floor_le ((2 ^ 28 : ℝ) * cos (((wrapI 32 (0 + n * 2 ^ 30) : Int) : ℝ) * π / 2 ^ 31 + 0.3))
   have h2 := Int.lt_floor_add_one ((2 ^ 28 : ℝ) * cos (((wrapI 32 (0 + n * 2 ^ 30) : Int) : ℝ) * π / 2 ^ 31 + 0.3))
   rw [abs_le]; constructor <;> linarith
+
+/-! ### the full clause is FALSE for the code (proved witness) -/
+
+/-- **Witness run.**  `k = 2^20` (`[256, -1482910]`), `A = 2^23`, `θ = π/4`, start phase `0`, frequency word `2^30`
+    (a quarter of the sample rate), samples `wX n = ±5931642` (within `1` of `2^23·cos(φ_n + π/4)`; `wit_setup`).
+    EVERY run of the model on these inputs (either build profile) returns, over the `4096` updates starting at update
+    `163840 = 40·2^32/k`, outputs with sums `ΣI = 12159431768`, `ΣQ = −12135711562` (mean `(2968611.3, −2962820.2)`;
+    the ideal is `(2965785, −2965785)`: both channels sit about `2^32/(√2·k) ≈ 2900` LSB too high), and hence ANY
+    representation `r·(cos(δ − π/4), sin(δ − π/4))`, `r > 0`, of the mean output has `|δ| > 9.7e-4` rad.
+    (The run is evaluated by the kernel in 41 chunks, `Lemmas/LockinRecWitA..F.lean`.) -/
+theorem lockin_recovery_angle_witness (m : Mode) (st : ℕ → Int × Int × Int × Int) (yI yQ : ℕ → Int)
+    (h0 : st 0 = (0, 0, 0, 0))
+    (hrun : ∀ n, lockinUpdate m (st n) (wX n) (wP n) 256 (-1482910) = .ok (st (n + 1), yI n, yQ n)) :
+    Lp2Butter 1048576 256 1482910 ∧ LkSetup (2 ^ 23) (π / 4) 0 (2 ^ 30) wX wP ∧
+    lkMean yI 163840 4096 = 12159431768 / 4096 ∧ lkMean yQ 163840 4096 = -12135711562 / 4096 ∧
+    ∀ δ r : ℝ, 0 < r → lkMean yI 163840 4096 = r * cos (δ - π / 4) →
+      lkMean yQ 163840 4096 = r * sin (δ - π / 4) → 9.7e-4 < |δ| := by
+  obtain ⟨sI, sQ⟩ := wit_sums m st yI yQ h0 hrun
+  have mI : lkMean yI 163840 4096 = 12159431768 / 4096 := by unfold lkMean; rw [sI]; norm_num
+  have mQ : lkMean yQ 163840 4096 = -12135711562 / 4096 := by unfold lkMean; rw [sQ]; norm_num
+  refine ⟨wit_butter, wit_setup, mI, mQ, fun δ r hr e1 e2 => ?_⟩
+  rw [mI] at e1; rw [mQ] at e2
+  rw [cos_sub, cos_pi_div_four, sin_pi_div_four] at e1
+  rw [sin_sub, cos_pi_div_four, sin_pi_div_four] at e2
+  -- (mI + mQ)·cos δ = (mI − mQ)·sin δ
+  have key : ((12159431768 : ℝ) / 4096 + -12135711562 / 4096) * cos δ
+      = ((12159431768 : ℝ) / 4096 - -12135711562 / 4096) * sin δ := by
+    rw [e1, e2]; ring
+  by_contra hc
+  have hδ : |δ| ≤ 9.7e-4 := not_lt.mp hc
+  have hs : |sin δ| ≤ 9.7e-4 := le_trans abs_sin_le_abs hδ
+  have hcos : 0.999999 ≤ cos δ := by
+    have h1 := one_sub_sq_div_two_le_cos (x := δ)
+    have h2 : δ ^ 2 ≤ (9.7e-4 : ℝ) ^ 2 := by
+      rw [← sq_abs δ]; exact pow_le_pow_left₀ (abs_nonneg _) hδ 2
+    norm_num at h2
+    linarith
+  have hs' := abs_le.mp hs
+  norm_num at key
+  nlinarith
+
+/-- **The recovery clause as asked is FALSE for the code**: at the witness of `lockin_recovery_angle_witness`
+    (`A = 2^23`, `k = 2^20`) all hypotheses hold and the magnitude part holds, but the angle of the mean output is off
+    by more than `9.7e-4` rad `> 2e-4` rad.  (Finding F-C11: the truncation offset of `Lowpass<2>`.) -/
+theorem lockin_recovery_full_false : ¬ lockin_recovery_full := by
+  intro hfull
+  obtain ⟨st, yI, yQ, h0, hrun, hwin⟩ := hfull .checked 1048576 256 1482910 (2 ^ 23) (π / 4) 0 (2 ^ 30) wX wP
+    wit_butter (by norm_num) (by norm_num) (by norm_num) (by norm_num) wit_setup
+  obtain ⟨-, δ, r, hδ, hr, e1, e2⟩ := hwin 163840 4096 (by norm_num) (by norm_num)
+  have := (lockin_recovery_angle_witness .checked st yI yQ h0 hrun).2.2.2.2 δ r hr e1 e2
+  linarith
 
 end Idsp
